@@ -167,6 +167,30 @@ def gen_random_payloads(ctx, n):
     return out
 
 
+INDENT = {'pug': ('p', '(t="%s")'), 'haml': ('%p', '(t="%s")'), 'slim': ('p', ' t="%s"')}
+
+
+def gen_indent(ctx, n):
+    """The same payloads under the indentation-based syntaxes (single-line text: `name text`)."""
+    rng = ctx.rng
+    out = []
+    for _ in range(n):
+        syn = rng.choice(sorted(INDENT))
+        name, attr = INDENT[syn]
+        ln = rng.choice([0, 1, 2, 3, 5, 8, 12])
+        if rng.random() < 0.6:
+            T = g.payload_text(rng, ln, False)
+            V = g.unescape(T)
+            out.append(case('indent:text', 'p{%s}' % T, [name + ' ' + V], {'syntax': syn}))
+        else:
+            q = rng.choice('"\'')
+            T = g.payload_quoted(rng, ln, q, False)
+            V = g.unescape(T)
+            out.append(case('indent:attr-quoted', 'p[t=%s%s%s]' % (q, T, q), [name + attr % V + ' '], {'syntax': syn}))
+        ctx.nontrivial((syn, out[-1][0]))
+    return out
+
+
 def gen_wrap(ctx, n):
     rng = ctx.rng
     out = []
@@ -276,6 +300,7 @@ def run(ctx):
     cases = gen_corpus(ctx)
     cases += gen_exhaustive(ctx)
     cases += gen_random_payloads(ctx, 2500 if quick else 40000)
+    cases += gen_indent(ctx, 600 if quick else 10000)
     cases += gen_wrap(ctx, 1500 if quick else 25000)
     cases += gen_outside(ctx, 1500 if quick else 30000)
     for _, _, meta in cases:
